@@ -331,6 +331,17 @@ func (x *Exec) expandModifies(fc *FuncContract, env *SpecEnv) []string {
 	for _, m := range fc.Modifies {
 		// forms: F|type|field (explicit key), ghost $name, or Type.field relative to package
 		switch {
+		case strings.HasPrefix(m, "elems:"):
+			// elems:<param>: the element memory of a slice parameter (and nothing reachable from the elements)
+			if env != nil {
+				if v, ok := env.names[m[6:]]; ok {
+					if sl, ok := v.typ.Underlying().(*types.Slice); ok {
+						keys := map[string]bool{}
+						x.p.leafKeysOfValue(sl.Elem(), keys)
+						out = append(out, sortedKeys(keys)...)
+					}
+				}
+			}
 		case strings.HasPrefix(m, "$"):
 			out = append(out, "G|"+m[1:])
 		case strings.Contains(m, "|"):
